@@ -250,10 +250,20 @@ enum Nonterminal {
 // position should equal the given position.
 type Cache<'a> = HashMap<(Nonterminal, usize), (Term<'a>, usize, bool)>;
 
+// Verification hook: the number of calls of parsing functions (cache hits and misses alike) made
+// on this thread. It is the deterministic work measure used to check that parsing stays linear.
+#[cfg(feature = "verif")]
+thread_local! {
+    pub static VERIF_PARSE_CALLS: std::cell::Cell<u64> = const { std::cell::Cell::new(0) };
+}
+
 // This macro should be called at the beginning of every parsing function to do a cache lookup and
 // return early on cache hit. It returns the cache key for use by subsequent macro invocations.
 macro_rules! cache_check {
     ($cache:ident, $nonterminal:ident, $start:expr $(,)?) => {{
+        #[cfg(feature = "verif")]
+        VERIF_PARSE_CALLS.with(|calls| calls.set(calls.get() + 1));
+
         // Macros are call-by-name, but we want call-by-value (or at least call-by-need) to avoid
         // accidentally evaluating arguments multiple times. Here we force eager evaluation.
         let start = $start;
